@@ -78,5 +78,6 @@ void h_lemma_disjoint(void)
 void h_tl_hasNext(void)    { struct ThreadLink *tl; bool la; TLGHOSTS(); ThreadLink_hasNext(tl, la); }
 void h_tl_raw_write(void)  { struct ThreadLink *tl; const char *msg; TLGHOSTS(); off_t w0 = 0; ThreadLink_raw_write(tl, msg); V_COVER(G_MSGLEN > tl->MaxMsg); V_COVER(G_MSGLEN <= tl->MaxMsg); }
 void h_tl_writeArray(void) { struct ThreadLink *tl; const char *d, *a; const rtosc_arg_t *aa; TLGHOSTS(); ThreadLink_writeArray(tl, d, a, aa); }
+void h_tl_write(void)      { struct ThreadLink *tl; const char *d, *a; TLGHOSTS(); ThreadLink_write(tl, d, a); }
 void h_tl_read(void)       { struct ThreadLink *tl; bool la; TLGHOSTS(); ThreadLink_read(tl, la); V_COVER(la); V_COVER(!la); }
 #endif
